@@ -130,3 +130,56 @@ def check_no_hidden_state(rep, src, rule, sites, why, allowed=None):
             rep.fail(rule, fn.site, what, '%s stores into %s (line %d): %s' % (fn.qual, ws[0][0], ws[0][1], why), where='%s:%d' % (fn.module.relpath, ws[0][1]))
         else:
             rep.ok(rule, fn.site, what, 'no store to self/class/module state, no in-place mutation of it')
+
+
+# ---- line primitive ------------------------------------------------------------------------------------------------------------
+
+_NL_ONLY_PATTERNS = ('\n', '\r?\n', '(?:\r)?\n', '\r\n|\n', '\n|\r\n')
+
+
+def check_line_primitive(rep, src, rule, sites, why, minimum=1):
+    """where a whole text (str) is cut into lines, only "\\n" (optionally preceded by "\\r") may end a line.  `str.splitlines()` also
+    cuts at VT, FF, FS, GS, RS, NEL (U+0085), LS (U+2028), PS (U+2029) and at a lone CR: text that contains one of these characters
+    inside a line is split there, although the same text read from a file object -- where only "\\n" ends a line -- is not.  The
+    property quantifies over arbitrary text, so such a character is in the domain.  Accepted primitives: split / partition on
+    "\\n", re.split on a newline pattern, iteration of io.StringIO(text).  (bytes.splitlines() cuts at LF, CR and CR LF only and
+    is not judged here.)"""
+    from ..core import norm, AnalysisError
+    from .. import normalize
+    n = 0
+    for site in sites:
+        f = src.func(site)
+        rep.saw_func(f)
+        fnode, _ = normalize.inline_helpers(f)
+        found = 0
+        for c in ast.walk(fnode):
+            if not isinstance(c, ast.Call):
+                continue
+            fn = c.func
+            what = None
+            okay = None
+            if isinstance(fn, ast.Attribute) and fn.attr == 'splitlines':
+                recv = norm(fn.value)
+                if recv.startswith("b'") or recv.startswith('b"'):
+                    continue
+                what, okay = norm(c)[:60], False
+            elif isinstance(fn, ast.Attribute) and fn.attr in ('split', 'rsplit', 'partition', 'rpartition') and c.args and isinstance(c.args[0], ast.Constant) \
+                    and c.args[0].value in ('\n', b'\n'):
+                what, okay = norm(c)[:60], True
+            elif norm(fn) in ('re.split',) and c.args and isinstance(c.args[0], ast.Constant) and isinstance(c.args[0].value, str) and '\n' in c.args[0].value:
+                what, okay = norm(c)[:60], c.args[0].value in _NL_ONLY_PATTERNS
+            elif norm(fn) in ('io.StringIO', 'StringIO') and len(c.args) == 1 and not c.keywords:
+                what, okay = norm(c)[:60], True
+            if what is None:
+                continue
+            found += 1
+            n += 1
+            if okay:
+                rep.ok(rule, f.site, 'line primitive `%s`' % what, 'only a newline ends a line')
+            else:
+                rep.fail(rule, f.site, 'line primitive `%s`' % what, '%s: `%s` also ends a line at VT, FF, FS, GS, RS, U+0085, U+2028, U+2029 and a lone CR, e.g. the text '
+                         '"a\\u2028b" is cut into two lines (a file object with the same text yields one)' % (why, what), where='%s:%d' % (f.module.relpath, c.lineno))
+        if not found:
+            raise AnalysisError('%s: no line-splitting primitive found (the anchor moved?)' % f.site)
+    if n < minimum:
+        raise AnalysisError('only %d line primitives examined' % n)
